@@ -168,3 +168,127 @@ PROPS["C16"] = {
                                   "msm_inverse", "msm_alias", "msm_mismatch", "msm_cancel", "dsm", "mul_alias"]},
     "assumptions": ["full-size list shapes and operand classes are sampled with an exact oracle; exhaustiveness is on the miniature curve"],
 }
+
+_ECDSA_A = [
+    {"spec": "MC_Ecdsa", "params": "mini43"},
+    {"spec": "MC_Ecdsa", "params": "mini79", "tiers": ("thorough",)},
+    {"spec": "MC_Ecdsa", "params": "mini163", "tiers": ("thorough",), "timeout": 7200},
+]
+_ECDSA_MC = ("Ecdsa.tla states SEC 1 4.1.3-4.1.6 with the library's low-s / recovery-id rules; TLC checks on miniature curves (every point has a known "
+             "discrete log, p-n = 12 makes x(R) >= n frequent) for ALL keys, ALL e, ALL (r,s) that the verification predicate is equivalent to 'some nonce k "
+             "produces (r,s)', that the private-key path 4.1.5 agrees, that signing with ANY nonce retries exactly on r=0/s=0 and otherwise yields a low-s, "
+             "valid signature whose id (and no other id in 0..7) recovers the signer, and that recovery fails exactly in the listed cases. ")
+
+PROPS["C07"] = {
+    "title": "ECDSA verification accepts exactly the signatures SEC 1 section 4.1.4 accepts",
+    "level": "model_checking",
+    "level_text": _ECDSA_MC + "The real VerifyRaw / Verify (3 encodings x malleability x hash sizing) / bitcoin.VerifyASN1 / the private-key path are bound by "
+                  "trace validation at full size: TLC evaluates the predicate (DER/compact/BIP-66 grammars from Wire.tla included) on the logged key, digest "
+                  "and signature for constructed boundary cases: x(R) in [n,p) via chosen R and key recovery, R = infinity, e = 0, digest >= n, all digest "
+                  "length edges, r/s in {0,n,n+1,2^256-1}, s vs n-s under both malleability settings, wrong recovery ids, bit flips, every byte of a DER "
+                  "encoding mutated, and the Wycheproof files re-driven through the logger.",
+    "level_note": "trusted: TLC, BigInt/EcMul/SHA-256 overrides (self-tested), harness logging; generators (incl. the recovery trick) untrusted",
+    "exhaustive": _ECDSA_A,
+    "drivers": [{"driver": "verify", "trace": "Trace_Ecdsa"}],
+    "require_classes": {"quick": ["r_zero", "s_zero", "high_s_rej", "high_s_acc", "x_ge_n", "R_inf", "e_zero", "digest_ge_n", "digest_short",
+                                  "digest_long", "accept", "reject", "enc_asn1", "enc_compact", "enc_rec", "enc_bogus", "rec_wrong_v", "btc_accept",
+                                  "btc_badenv", "btc_high_s", "hash_mismatch", "parse_reject", "alt_path", "nil_opts"]},
+    "assumptions": ["full-size inputs are constructed per corner class and decided by an exact oracle; all inputs are enumerated only on miniature curves"],
+}
+
+PROPS["C08"] = {
+    "title": "ECDSA signing always yields a valid, low-s, correctly recoverable signature",
+    "level": "model_checking",
+    "level_text": _ECDSA_MC + "The real SignRaw / Sign are bound by trace validation: for every logged signature TLC infers the nonce (+-s^-1(e + r d)) and requires "
+                  "the output to be exactly SignWithNonce(d,e,k) (pins low-s and the recovery id), to verify, and to be recovered by its id and by no other id; "
+                  "encoded outputs must be the canonical encoding and parse back; SelfVerify on/off must give identical bytes for identical entropy; "
+                  "inadmissible digest lengths / encodings must give an error and no bytes. Keys {1, n-1, odd/even public y, random}, digests {0, ff, >= n, "
+                  "lengths 0..65}, hedged and RFC 6979 nonces, every option combination.",
+    "level_note": "trusted: TLC, BigInt/EcMul/SHA-256 overrides (self-tested), harness logging",
+    "exhaustive": _ECDSA_A,
+    "drivers": [{"driver": "sign", "trace": "Trace_Ecdsa"}],
+    "require_classes": {"quick": ["d_one", "d_nm1", "pub_yodd", "pub_yeven", "digest_zero", "digest_ones", "digest_ge_n", "v0", "v1",
+                                  "sv_same", "inadmissible_len", "inadmissible_enc", "rfc6979", "hedged", "sign_len_long", "enc_asn1", "enc_compact",
+                                  "enc_rec", "nil_opts"]},
+    "assumptions": ["x(R) >= n, r = 0 and s = 0 cannot be reached through signing at full size (2^-128); those branches are covered on the miniature model "
+                    "and, for ids 2/3, by C11's direct recovery events"],
+}
+
+PROPS["C09"] = {
+    "title": "signing nonces are never reused, biased or RNG-trusting; RFC 6979 mode is exact",
+    "level": "model_checking",
+    "level_text": "Nonce.tla is the state machine of one Sign call (io.ReadFull over an arbitrary reader script, the per-signature DRBG, the bounded rejection "
+                  "sampler, the sign/retry loop); TLC enumerates all reader scripts x candidate-class sequences and checks 'signed => exactly W bytes of entropy, "
+                  "nonce = first valid candidate (unreduced)', 'reader error before W bytes => no signature', bounded attempts; Rfc6979.tla is the HMAC_DRBG with "
+                  "its deferred K/V update. The real code is bound by a STATEFUL trace: scripted readers (constant, counter, 1-byte-at-a-time, zero-length reads, "
+                  "error with the last chunk, failing after j bytes for every j in 0..31) with every Read logged; TLC checks ReadFull's protocol, that equal "
+                  "(key, e, entropy) give the identical signature under any chunking and that no two different triples ever share r (state: seenKey / seenR); "
+                  "the sampler is driven on all candidate-class sequences (0, >= n, valid edge values) up to and past the retry limit; the DRBG's successive "
+                  "reads are compared with the RFC's eager candidate loop (HMAC defined in TLA+); public RFC 6979 signatures must equal SignWithNonce with the "
+                  "first RFC candidate.",
+    "level_note": "trusted: TLC, BigInt/EcMul/SHA-256 overrides (self-tested), harness logging; TupleHash is uninterpreted (the property does not pin it)",
+    "exhaustive": [{"spec": "MC_Nonce", "params": "mini43"}],
+    "drivers": [{"driver": "nonce", "trace": "Trace_Ecdsa", "shards": 16}],
+    "require_classes": {"quick": ["reader_short_reads", "reader_fail_0", "reader_fail_mid", "reader_fail_31", "reader_err_with_last", "reader_ok",
+                                  "same_triple", "entropy_one_byte_diff", "constant_entropy_diff_msg", "sample_first", "sample_after_zero",
+                                  "sample_after_ge_n", "sample_exhausted", "sample_short", "sample_edge_accept", "drbg_multi", "drbg_vector", "rfc6979",
+                                  "inadmissible_len"]},
+    "assumptions": ["statistical unbiasedness is not decided, only the structural rule (reject, never reduce; bounded retries)",
+                    "a rejected candidate inside a full Sign call needs a 2^-128 event; the sampler, the DRBG and the sign step are each checked and composed only in the model"],
+}
+
+PROPS["C10"] = {
+    "title": "ECDH is symmetric and exact; key objects only ever hold valid keys",
+    "level": "model_checking",
+    "level_text": _ECDSA_MC + "ECDH symmetry and exactness are model-checked for ALL (a, b) of the miniature curve. The real constructors / accessors / ECDH are bound by trace "
+                  "validation: private-key candidates {0, 1, n-1, n, n+1, 2^256-1, wrong lengths, random}, public-key byte strings in every SEC 1 class plus hybrid, "
+                  "+p aliases, twist and other-curve points and the identity, keys from points in any representative; cached Bytes/CompressedBytes/ASN1Bytes/Point must "
+                  "equal the specification's encodings of d*G; ECDH(a,B) = ECDH(b,A) = x(abG) with the peer key travelling in each encoding.",
+    "level_note": "trusted: TLC, BigInt/EcMul overrides (self-tested), harness logging",
+    "exhaustive": _ECDSA_A[:1] + [{"spec": "MC_Sec1", "params": "mini211", "env": {"VERIF_MCFULL": "1"}}],
+    "drivers": [{"driver": "keys", "trace": "Trace_Ecdsa"}],
+    "require_classes": {"quick": ["priv_ok", "priv_zero", "priv_ge_n", "priv_badlen", "pub_ok_unc", "pub_ok_cmp", "pub_identity", "pub_invalid",
+                                  "pub_twist", "ecdh_ok", "ecdh_edge"]},
+    "assumptions": ["full-size keys are sampled per class with an exact oracle"],
+}
+
+PROPS["C11"] = {
+    "title": "public-key recovery returns exactly the key the signature verifies under",
+    "level": "model_checking",
+    "level_text": _ECDSA_MC + "The real RecoverPublicKey is bound by trace validation for ids 0..255 on honest signatures (only the emitted id recovers the signer), on r = x - n "
+                  "for constructed x in [n,p) (ids 2/3 succeed and the key verifies), r >= p-n with bit 1 set (must fail), r not an x-coordinate, r or s = 0, "
+                  "(r,s,e) with sR = eG (Q at infinity), short digests; every success is followed by a VerifyRaw event of the recovered key.",
+    "level_note": "trusted: TLC, BigInt/EcMul overrides (self-tested), harness logging",
+    "exhaustive": _ECDSA_A,
+    "drivers": [{"driver": "recover", "trace": "Trace_Ecdsa"}],
+    "require_classes": {"quick": ["rec_v_ge4", "rec_hi_ok", "rec_hi_overflow", "rec_not_x", "rec_q_inf", "rec_rs_zero", "rec_ok", "accept"]},
+    "assumptions": ["full-size inputs are constructed per corner class and decided by an exact oracle"],
+}
+
+PROPS["C12"] = {
+    "title": "signature and key wire formats are strict, canonical, and parsed without panics",
+    "level": "model_checking",
+    "level_text": "Wire.tla states the accepted languages as grammars over byte sequences (strict-DER SEQUENCE{INTEGER,INTEGER}, compact forms, BIP-66 written "
+                  "from the BIP text, SubjectPublicKeyInfo with exact OIDs and a BIT STRING without unused bits). TLC checks on a one-byte scalar width that for "
+                  "EVERY byte string up to length 8 over a tag/length/content alphabet the DER grammar accepts exactly the image of the builder (one encoding per "
+                  "(r,s), parse/build mutually inverse), and that the BIP-66 grammar is equivalent to the index arithmetic of asn1_shitcoin.go for every total "
+                  "length 0..75, every R/S length header and the inspected content bytes over {00,01,7f,80,ff}. The real parsers/builders are bound by trace "
+                  "validation at full size: TLC evaluates the grammar on the logged BYTES for every single and (sampled) pairwise structural deviation (tags, "
+                  "short/long/indefinite/off-by-one lengths, extra/missing leading zeros, negative/empty/33-byte integers, values 0/n/2^256-1, trailing bytes "
+                  "inside/outside, missing/extra elements), every BIP-66 total length and (lenR,lenS) split, SPKI deviations (unused bits 1..8 with zero and "
+                  "non-zero padding, OIDs, parameters, trailing bytes at each level, every byte mutated, every SEC 1 class of content), the repository's vector "
+                  "files and random/mutated strings of length 0..80; no parser may panic.",
+    "level_note": "trusted: TLC, BigInt overrides (self-tested), harness logging (recover() around every parser call)",
+    "exhaustive": [
+        {"spec": "MC_Wire", "params": "mini211", "env": {"VERIF_MCFULL": "0"}, "tiers": ("quick",)},
+        {"spec": "MC_Wire", "params": "mini211", "env": {"VERIF_MCFULL": "1"}, "tiers": ("thorough",), "timeout": 7200},
+    ],
+    "drivers": [{"driver": "wire", "trace": "Trace_Wire"}],
+    "require_classes": {"quick": ["der_ok", "der_bad", "der_len_long_form", "der_indefinite", "der_leading_zero", "der_negative", "der_trailing",
+                                  "der_wrong_tag", "der_empty_int", "der_33_byte", "der_value_zero", "der_value_ge_n", "der_short_input",
+                                  "build_roundtrip", "build_high_bit", "build_short", "cmp_ok", "cmp_bad_len", "cmp_zero", "cmp_ge_n", "cmpv_ok",
+                                  "bip_ok", "bip_len_edge", "bip_bad", "bip_but_not_der", "bip_neg", "bip_padding",
+                                  "spki_ok_unc", "spki_ok_cmp", "spki_unused_bits", "spki_unused_bits_zero_pad", "spki_bad_oid", "spki_trailing",
+                                  "spki_bad_point", "spki_identity", "spki_params", "spki_bad", "random_bytes"]},
+    "assumptions": ["full-size byte strings are enumerated per structural class and sampled at random; all strings are enumerated only at miniature width"],
+}
